@@ -23,20 +23,22 @@ CONSTANTS MaxDo,        \* number of Do actions per behaviour
           LeafKinds,    \* subset of {"W","CF","CD","MV","RM"}
           AllowPairs,   \* BOOLEAN: two-leaf change sets
           AllowSelective,\* BOOLEAN
-          AllowReopen   \* BOOLEAN: Close/Reopen actions (C12)
+          AllowReopen,  \* BOOLEAN: Close/Reopen actions (C12)
+          AllowSetLimit \* BOOLEAN: the limit preference may change in mid-session
 
 VARIABLES tree, init,
           chg,        \* Seq of [leaves, olds]; the id of a change is its index
           undo, redo, \* Seq of ids
           pushed,     \* ids pushed out of the undo list by the limit (still in force)
           limit,
+          limit0,     \* the limit the project was opened with
           dropped,    \* ids undone with drop=TRUE (forgotten, not in force)
           tainted,    \* a change was redone although a change it built on was dropped
           pend,       \* [kind, n, cnt, drop, i]: selective operation in progress
           err,        \* the last API call raised
           trail       \* Seq of completed API calls with the state after each
 
-vars == <<tree, init, chg, undo, redo, pushed, dropped, tainted, limit, pend, err, trail>>
+vars == <<tree, init, chg, undo, redo, pushed, dropped, tainted, limit, limit0, pend, err, trail>>
 
 Idle == [kind |-> "idle", n |-> 0, cnt |-> 0, drop |-> FALSE, i |-> 0]
 
@@ -131,6 +133,7 @@ Init ==
   /\ dropped = {}
   /\ tainted = FALSE
   /\ limit \in Limits
+  /\ limit0 = limit
   /\ pend = Idle
   /\ err = FALSE
   /\ trail = << >>
@@ -278,6 +281,17 @@ Clear ==
   /\ trail' = Append(trail, Step("clear", [i |-> 0, drop |-> FALSE], tree, << >>, << >>, FALSE, tainted))
   /\ UNCHANGED <<tree, init, chg, dropped, tainted, limit, pend>>
 
+\* project.set("max_history_items", n) in mid-session: the limit is a preference read
+\* whenever a change is recorded; lowering it takes effect at the next recorded change
+SetLimit(n) ==
+  /\ CanCall
+  /\ n \in Limits
+  /\ n # limit
+  /\ limit' = n
+  /\ err' = FALSE
+  /\ trail' = Append(trail, Step("setlimit", [i |-> n, drop |-> FALSE], tree, undo, redo, FALSE, tainted))
+  /\ UNCHANGED <<tree, init, chg, undo, redo, pushed, dropped, tainted, pend>>
+
 \* Project.close() then Project(...) again on the same directory (C12): the
 \* lists are written with ChangeToData and rebuilt with DataToChange; nothing
 \* observable may change.
@@ -290,7 +304,18 @@ Reopen ==
   /\ trail' = Append(trail, Step("reopen", [i |-> 0, drop |-> FALSE], tree, undo, redo, FALSE, tainted))
   /\ UNCHANGED <<tree, init, chg, undo, redo, pushed, dropped, tainted, limit, pend>>
 
-Next ==
+\* Project.sync(): save now, keep working on the same Project object; nothing observable changes,
+\* and a later close must save again
+Sync ==
+  /\ CanCall
+  /\ AllowReopen
+  /\ Len(trail) > 0
+  /\ trail[Len(trail)].act \notin {"reopen", "sync"}
+  /\ err' = FALSE
+  /\ trail' = Append(trail, Step("sync", [i |-> 0, drop |-> FALSE], tree, undo, redo, FALSE, tainted))
+  /\ UNCHANGED <<tree, init, chg, undo, redo, pushed, dropped, tainted, limit, pend>>
+
+Next0 ==
   \/ \E ls \in Singles : Do(ls)
   \/ \E l1 \in KLeaves, l2 \in KLeaves : DoPair(l1, l2)
   \/ UndoEmpty
@@ -300,12 +325,16 @@ Next ==
   \/ \E i \in 1..MaxDo : BeginRedoSel(i)
   \/ RedoStep
   \/ Clear
+  \/ \E n \in Limits : AllowSetLimit /\ SetLimit(n)
   \/ Reopen
+  \/ Sync
+
+Next == Next0 /\ UNCHANGED limit0
 
 Spec == Init /\ [][Next]_vars
 
 \* state space without the observation variable
-View == <<tree, init, chg, undo, redo, pushed, dropped, tainted, limit, pend, err>>
+View == <<tree, init, chg, undo, redo, pushed, dropped, tainted, limit, limit0, pend, err>>
 
 (***************************************************************************)
 (* Properties (C11)                                                        *)
@@ -340,7 +369,8 @@ OnlyDependents ==
   /\ \A i \in 1..Len(undo) : pend.kind = "idle" => Range(Deps(undo, i)) = DepSet(undo, i)
   /\ \A i \in 1..Len(redo) : pend.kind = "idle" => Range(Deps(redo, i)) = DepSet(redo, i)
 
-LimitRespected == Len(undo) <= limit
+\* the list is cut when a change is recorded: after a Do it never exceeds the limit in force
+LimitRespected == (Len(trail) > 0 /\ trail[Len(trail)].act = "do") => Len(undo) <= limit
 ListsDisjoint  == Range(undo) \cap Range(redo) = {} /\ Range(undo) \cap pushed = {}
 NoDuplicates   == Cardinality(Range(undo)) = Len(undo) /\ Cardinality(Range(redo)) = Len(redo)
 TreeIsTree     == TreeOK(tree)
